@@ -92,6 +92,19 @@ class C07(HistoryProperty):
             return self.gen_case(rng, tier)
         spec = gen.prune(spec)
         candidates = [n["id"] for n in spec["nodes"] if n["id"] != fid]
+        # a dataset DERIVED from the focus (with_options on a key the focus does not pre-set and that is no dispatch key): it
+        # shares the focus' table of overloads -- registrations through either reach both -- until set_dispatch() on one of
+        # them gives that one a table (and a dispatch) of its own
+        members = [fid]
+        if rng.random() < 0.4:
+            taken = set(U.all_paths(focus.get("options") or {})) | set(U.all_paths(focus.get("default_options") or {}))
+            free = [k for k in ("A", "B", "C", "S.X", "S.Y") if k not in taken and k.split(".")[0] not in taken]
+            if free:
+                p = {}
+                U.set_path(p, rng.choice(free), rng.choice([0, 1, "a", "b"]))
+                spec["nodes"].append({"k": "derive", "base": fid, "how": "with_options", "options": p, "id": "fder"})
+                spec["roots"].append("fder")
+                members.append("fder")
         dg = U.DictGen(rng, cfg)
         o = dg.fresh()
         ops = []
@@ -108,7 +121,7 @@ class C07(HistoryProperty):
                         o2["M"] = rng.choice(["a", "b"])
                     if rng.random() < 0.6:
                         o2["M2"] = rng.choice([1, 2])
-                ops.append({"op": "evaluate", "node": fid, "o": o2})
+                ops.append({"op": "evaluate", "node": rng.choice(members), "o": o2})
             elif x < 0.75:
                 alias = rng.choice(ALIASES)
                 if tuple_dispatch and rng.random() < 0.8:
@@ -121,15 +134,15 @@ class C07(HistoryProperty):
                 if impl is None or rng.random() < 0.5:
                     nov += 1
                     impl = {"fn": f"{name}_ov{nov}", "args": ({"a": rng.choice(candidates)} if candidates and rng.random() < 0.6 else {}), "id": f"ov{nov}"}
-                ops.append({"op": "register", "ds": fid, "alias": alias, "impl": impl})
+                ops.append({"op": "register", "ds": rng.choice(members), "alias": alias, "impl": impl})
             elif x < 0.85:
                 nov += 1
                 impl = {"fn": f"{name}_ov{nov}", "args": ({"a": rng.choice(candidates)} if candidates and rng.random() < 0.6 else {}), "id": f"ov{nov}"}
-                ops.append({"op": "overload_stacked", "ds": fid, "aliases": rng.sample(ALIASES, 2), "impl": impl})
+                ops.append({"op": "overload_stacked", "ds": rng.choice(members), "aliases": rng.sample(ALIASES, 2), "impl": impl})
             elif x < 0.92:
                 hashable = [c for c in candidates if not gen.may_be_unhashable({m["id"]: m for m in spec["nodes"]}, c)]
                 d = rng.choice(U.DISPATCH_KEYS) if rng.random() < 0.5 or not hashable else {"n": rng.choice(hashable)}
-                ops.append({"op": "set_dispatch", "ds": fid, "dispatch": d})
+                ops.append({"op": "set_dispatch", "ds": rng.choice(members), "dispatch": d})
         return {"kind": "overload", "cfg": cfg, "spec": spec, "focus": fid, "ops": ops}
 
     # ------------------------------------------------------------------ overload part
@@ -141,8 +154,11 @@ class C07(HistoryProperty):
         plain["id"] = "F__plain"
         plain["cache"] = "nocache"
         tspec = {"nodes": spec["nodes"] + [plain] + [{"k": "opt", "key": k, "id": f"opt__{k}"} for k in U.DISPATCH_KEYS], "roots": spec["roots"]}
-        table = {}
-        dispatch = F["dispatch"]
+        # the focus and the dataset derived from it point to ONE table of overloads; set_dispatch() on a member gives that
+        # member a copy of its table with the new dispatch
+        tables = [{"dispatch": F["dispatch"], "map": {}}]
+        ptr = {fid: 0, "fder": 0}
+        derived = next((n for n in spec["nodes"] if n["id"] == "fder"), None)
         stored = {}  # fingerprint text -> value text (successful evaluations of the focus dataset)
         registered_after_eval = set()
         evaluated = False
@@ -154,18 +170,20 @@ class C07(HistoryProperty):
                 res.bump("structural_ops")
                 if w.count("body") and False:
                     pass
+                tab = tables[ptr[op.get("ds", fid)]]
                 if op["op"] == "register":
                     for a in (op["alias"] if isinstance(op["alias"], list) else [op["alias"]]):  # ({"tuple": ...} is ONE alias)
-                        table[_key(a)] = op["impl"]
+                        tab["map"][_key(a)] = op["impl"]
                         if evaluated:
                             registered_after_eval.add(crepr(_key(a)))
                 elif op["op"] == "overload_stacked":
                     for a in op["aliases"]:
-                        table[_key(a)] = op["impl"]
+                        tab["map"][_key(a)] = op["impl"]
                         if evaluated:
                             registered_after_eval.add(crepr(_key(a)))
                 elif op["op"] == "set_dispatch":
-                    dispatch = op["dispatch"]
+                    tables.append({"dispatch": op["dispatch"], "map": dict(tab["map"])})
+                    ptr[op.get("ds", fid)] = len(tables) - 1
                 continue
             evaluated = True
             res.bump("ops")
@@ -174,7 +192,11 @@ class C07(HistoryProperty):
             n_lookups = len(backend.lookups) if backend is not None else 0
             out = w.do(op)
             # ---- expectation
+            member = op["node"]
+            table, dispatch = tables[ptr[member]]["map"], tables[ptr[member]]["dispatch"]
             eff = U.overlay(U.overlay(F.get("default_options") or {}, o), F.get("options") or {})
+            if member == "fder":
+                eff = U.overlay(eff, derived["options"])
             t = World(tspec, record=False)
             for sop in w.structural:
                 t.do(sop)
@@ -212,7 +234,7 @@ class C07(HistoryProperty):
                         acceptable.append(("ok", crepr(value)))
             got = ("ok", out.value) if out.ok else ("fail", None)
             if got not in acceptable:
-                res.violate("wrong-implementation-selected", op_index=i, node=fid, o=o, effective=eff, dispatch_value=crepr(dv) if ok else "<failed>",
+                res.violate("wrong-implementation-selected", op_index=i, node=member, o=o, effective=eff, dispatch_value=crepr(dv) if ok else "<failed>",
                             model_picks=which, table=sorted(crepr(k) for k in table), got=out.brief(), acceptable=acceptable)
                 return w
         if nontrivial:
